@@ -40,6 +40,16 @@ def h_segment_ramp(L, m, tilts, dx):
     return out
 
 
+from ..ops import _churn_views as ops_churn_views      # noqa: E402
+
+
+def h_readonly(L, a):
+    """The caller's array as it comes from a memory-mapped file or np.broadcast_to: a view that cannot be written."""
+    v = np.asarray(a).view()
+    v.flags.writeable = False
+    return v
+
+
 def rel_err(a, b, scale):
     if a.size == 0:
         return 0.0
@@ -453,11 +463,13 @@ HELPERS = {
     'check.tilt_kept': check_tilt_kept,
     'check.refit': check_refit,
     'h.add_ramp': h_add_ramp,
+    'h.readonly': h_readonly,
     'h.layout': h_layout,
     'h.dispersive_ramp': h_dispersive_ramp,
     'h.global_mask': h_global_mask,
     'h.segment_ramp': h_segment_ramp,
     'check.views': check_views,
+    'churn.views': ops_churn_views,
     'check.phasor': check_phasor,
     'check.equiv': check_equiv,
     'check.fit': check_fit,
@@ -638,6 +650,21 @@ class ViewsHooks(Hooks):
             if not v['insert_ok'] or not v['insert_same_object']:
                 it.violate('C07.insert', {'what': 'accumulate' if v['insert_same_object'] else 'returns-other-array',
                                           'weighted': tag.get('weight', 1) != 1, 'same_shape': tag.get('same_shape', False)}, v['insert_detail'], i)
+        elif fn == 'churn.views':
+            it.probe('short_lived_wavefronts')
+            it.probe('check:views')
+            if not out.ok:
+                it.violate('C07.views', {'what': 'view-raised', 'exc': type(out.exc).__name__}, 'a series of short-lived wavefronts raised %r' % (out.exc,), i)
+            else:
+                for q, (e_int, e_ins, nf) in enumerate(out.value):
+                    if not (e_int <= 1e-12):
+                        it.violate('C07.views', {'what': 'intensity-vs-field', 'overlap': 'short-lived-wavefronts'},
+                                   'trial %d of a series of wavefronts, each built, read and dropped: max |intensity - |field|^2| / max = %.3g' % (q, e_int), i)
+                        break
+                    if not (e_ins <= 1e-12):
+                        it.violate('C07.insert', {'what': 'accumulate', 'weighted': ev['a'][2] != 1, 'same_shape': True, 'series': 'short-lived-wavefronts'},
+                                   'trial %d of a series of wavefronts, each built, read and dropped: insert differs from weight*|field|^2 by %.3g' % (q, e_ins), i)
+                        break
         elif fn == 'check.views' and not out.ok:
             it.violate('C07.views', {'what': 'view-raised', 'exc': type(out.exc).__name__}, 'reading the views raised %r' % (out.exc,), i)
         if fn == 'check.phasor' and out.ok and out.value.get('premise'):
@@ -698,7 +725,7 @@ class ViewsScenario(OpticsBase):
                    'floor(N/2)+offset on a zero plane; propagation itself is not modelled (C02 is not applicable)',
                    'segment masks are disjoint (Voronoi partitions), as the documentation requires',
                    'NaN/inf accumulators are replaced by loud finite garbage: before + w*intensity is NaN by arithmetic there']
-    must_hit = ['three_fields_overlap', 'clip:lo0', 'clip:hi0', 'clip:lo1', 'clip:hi1', 'clip:outside', 'scalar_plane',
+    must_hit = ['short_lived_wavefronts', 'three_fields_overlap', 'clip:lo0', 'clip:hi0', 'clip:lo1', 'clip:hi1', 'clip:outside', 'scalar_plane',
                 'two_segmented_planes', 'px_conflict', 'default_plane', 'nfields:1', 'nfields:3+', 'disjoint_pair_bridged',
                 'phasor_after_caller_write', 'phasor_after_attribute_update', 'slit_plane', 'plane_reused_at_another_sampling',
                 'views_reread_after_caller_write', 'rescaled_plane', 'px_conflict_tilt_plane', 'px_conflict_scalar_wavefront', 'mask_buffer_refilled']
@@ -956,6 +983,10 @@ class ViewsScenario(OpticsBase):
             out.append(e)
             if rng.random() < 0.03:
                 out.append(rng.choice([{'env': 'cache_clear'}, {'env': 'cache', 'maxsize': rng.choice([0, 1, 2])}]))
+            if e.get('fn') == 'check.views' and rng.random() < 0.04:
+                # short-lived wavefronts: a series of trials, each with a pupil and a wavefront of its own, dropped before the next
+                out.append({'c': 0, 'fn': 'churn.views', 'a': [rng.randint(8, 14), [rng.randrange(10 ** 6) for _ in range(rng.randint(4, 8))],
+                                                               rng.choice([1.0, 0.5, 2.0])], 'id': e['id'] + 'ch'})
             if e.get('fn') == 'check.views' and rng.random() < 0.1:
                 d = copy.deepcopy(e)            # F6: read the views again, into a fresh dirty accumulator
                 d['id'] = e['id'] + 'd'
@@ -980,6 +1011,8 @@ class ViewsScenario(OpticsBase):
             for wid in wids[:1]:
                 events.append({'c': 0, 'fn': 'check.views', 'a': ['@' + wid], 'id': 'pv%d' % j,
                                'k': {'fill': 'garbage', 'seed': j, 'weight': 2.0, 'acc_shape': [2, 2]}, 't': {'dirty': True, 'weight': 2.0}})
+            if j < 3:
+                events.append({'c': 0, 'fn': 'churn.views', 'a': [10 + 2 * j, [verif_seed * 1000 + 100 * j + q for q in range(60)], 0.5], 'id': 'churn%d' % j})
             runs.append({'scenario': self.name, 'world': world, 'events': events, 'run_index': -100 + j, 'seed': 0})
         # directed: a field wholly outside the accumulator (large tilt, small prop window)
         rng = random.Random(verif_seed + 5)
@@ -1012,12 +1045,26 @@ class ViewsScenario(OpticsBase):
 
 class TiltHooks(Hooks):
     prefix = 'C04'
+    def before(self, it, i, ev):
+        self.pre_plane = None
+        if ev.get('t', {}).get('may_refuse_fit'):
+            pl = it.resolve(ev['a'][0])
+            self.pre_plane = (pl, it.dig(pl))
+
     def after(self, it, i, ev, out):
         fn = ev['fn']
         tag = ev.get('t', {})
         if not fn.startswith('check.'):
             if tag.get('fft_attempt'):
                 it.probe('fft_attempt_before_dft')
+            if getattr(self, 'pre_plane', None) is not None and not out.ok:
+                # a fit that cannot be carried out (the OPD cannot be written) leaves OPD and recorded tilt as they were
+                it.probe('refused_inplace_fit')
+                it.fault('refuse')
+                pl, d0 = self.pre_plane
+                if it.dig(pl) != d0:
+                    it.violate('C04.fit', {'what': 'refused-fit-changed-plane', 'exc': type(out.exc).__name__},
+                               'fit_tilt(inplace=True) was refused (%r) but left the plane changed (%d tilt records)' % (out.exc, len(pl.tilt)), i)
             if tag.get('expect') == 'ok' and not out.ok:
                 it.violate('C04.equiv', {'what': 'step-raised', 'fn': fn, 'exc': type(out.exc).__name__}, '%s raised %r' % (fn, out.exc), i)
             return
@@ -1117,7 +1164,7 @@ class TiltScenario(OpticsBase):
                 'carrier:wavefront-tilt', 'carrier:fit', 'carrier:refit', 'carrier:dispersive', 'carrier:wavefront-tilt+fit',
                 'carrier:tilt-planes-before-pupil', 'carrier:fan-out', 'carrier:same-wavefront-resampled', 'carrier:same-tilt-twice',
                 'trace_order:1/1', 'carrier:fit-inplace', 'noncontiguous_opd', 'carrier:dispersive-high-order', 'trace_negative_arc',
-                'trace_negative_arc_high_order', 'dispersive_blue', 'dispersive_red', 'pupil_per_axis_pixels', 'output_mask', 'fit:fit-rescale-refit', 'segment_off_detector', 'trace_after_update', 'fit:fit-update-refit', 'fft_attempt_before_dft']
+                'trace_negative_arc_high_order', 'dispersive_blue', 'dispersive_red', 'pupil_per_axis_pixels', 'output_mask', 'fit:fit-rescale-refit', 'segment_off_detector', 'trace_after_update', 'fit:fit-update-refit', 'fft_attempt_before_dft', 'refused_inplace_fit']
     probe_names = must_hit + ['coldwarm_audit', 'no_common_samples', 'trace_order:2/1', 'trace_order:1/2', 'trace_order:2/2', 'trace_order:3/1']
 
     def program(self, rng, world, force=None):
@@ -1277,6 +1324,17 @@ class TiltScenario(OpticsBase):
                 b.E('check.fit', ['@' + pin0, '@' + qin], t={'segmented': k > 1, 'layout': lay, 'inplace': True}, tag='c')
                 wqi_pre, iqi = image(qin)
                 b.E('check.equiv', ['@' + iqi, '@' + ie, '@' + wqi_pre, '@' + we_pre], t=dict(base_t, carrier='fit-inplace', layout=lay), tag='c')
+        if rng.random() < 0.25 or force:
+            # an in-place fit that cannot be carried out: the OPD is a read-only view (memory map, broadcast).  Refused or not, OPD plus
+            # recorded tilt still is the original: the plane images like the twin, and so does the copy the caller falls back to
+            o_ro = b.E('h.readonly', ['@' + o_all], tag='o')
+            pro = b.E('Pupil', None, dict(pkw, opd='@' + o_ro, mask='@' + m), tag='p')
+            b.E('Plane.fit_tilt', ['@' + pro], {'inplace': True}, t={'may_refuse_fit': True}, tag='x')
+            wro_pre, iro = image(pro)
+            b.E('check.equiv', ['@' + iro, '@' + ie, '@' + wro_pre, '@' + we_pre], t=dict(base_t, carrier='refused-inplace-fit'), tag='c')
+            qro = b.E('Plane.fit_tilt', ['@' + pro], tag='q')
+            wro2_pre, iro2 = image(qro)
+            b.E('check.equiv', ['@' + iro2, '@' + ie, '@' + wro2_pre, '@' + we_pre], t=dict(base_t, carrier='fit-after-refused-fit'), tag='c')
         # ---- carriers combined: a fitted pupil (per-segment tilt recorded) met by a wavefront that already carries tilt,
         #      and Tilt planes applied BEFORE the pupil ("all orderings of tilt elements in a plane chain")
         if rng.random() < 0.6 or force:
